@@ -90,7 +90,26 @@ func overloadWires(rng *rand.Rand) [][]byte {
 	return out
 }
 
+// cookieWires: options areas in which the octets of the magic cookie (99 130 83 99) turn up again: as the first option (code
+// 99 with 130 octets that begin 83 99), a second cookie in front of the options, the cookie inside a value, at the very end
+func cookieWires(rng *rand.Rand) [][]byte {
+	var out [][]byte
+	hdr := stdHeader4()
+	val := append([]byte{83, 99}, randBytes(rng, 128)...)
+	out = append(out, append(append(append([]byte(nil), hdr...), append([]byte{99, 130}, val...)...), 53, 1, 5, 255))
+	out = append(out, append(append(append([]byte(nil), hdr...), append([]byte{99, 130}, val...)...), 255))
+	out = append(out, append(append([]byte(nil), hdr...), 99, 130, 83, 99, 53, 1, 5, 255)) // (the option overruns: not a packet)
+	out = append(out, append(append([]byte(nil), hdr...), 53, 1, 5, 43, 4, 99, 130, 83, 99, 255))
+	out = append(out, append(append([]byte(nil), hdr...), 53, 1, 5, 255, 99, 130, 83, 99))
+	out = append(out, append(append([]byte(nil), hdr...), 99, 2, 83, 99, 255))
+	out = append(out, append(append([]byte(nil), hdr...), 99, 0, 130, 0, 83, 0, 99, 0, 255))
+	return out
+}
+
 func genC06v4(o *Out, rng *rand.Rand, tier string) {
+	for _, w := range cookieWires(rng) {
+		fix4(o, w, "cookie-octets-among-the-options")
+	}
 	for _, w := range overloadWires(rng) {
 		fix4(o, w, "option-overload-fields")
 	}
